@@ -116,6 +116,10 @@ VARIANTS = [
          edits=[("cotengra/__init__.py", "    optimizer = HyperOptimizer(**opts)\n", "    try:\n        optimizer = _HYPER_PRESET_OPTIMIZERS[str(opts)]\n    except KeyError:\n        optimizer = _HYPER_PRESET_OPTIMIZERS[str(opts)] = HyperOptimizer(**opts)\n"),
                 ("cotengra/__init__.py", "def hyper_optimize(\n", "_HYPER_PRESET_OPTIMIZERS = {}\n\n\ndef hyper_optimize(\n")],
          expect=("C13-RETAINED", "parked:HyperOptimizer")),
+    dict(name="seed C13_13: the per-tree contractor memo loses strip_exponent from its key", kind="break", file="cotengra/core.py",
+         old="            strip_exponent,\n            check_zero,\n            implementation,\n            progbar,\n        )\n        try:",
+         new="            check_zero,\n            implementation,\n            progbar,\n        )\n        try:",
+         expect=("C13-COREKEY", "get_contractor")),
 ]
 for v in VARIANTS:
     if v.get("edits"):
